@@ -64,10 +64,10 @@ impl Scenario for C17S {
     }
     fn count(&self, tier: Tier, variant: &str) -> u64 {
         match (tier, variant) {
-            (Tier::Quick, "os") => 8000,
-            (Tier::Quick, _) => 2000,
-            (Tier::Thorough, "os") => 400_000,
-            (Tier::Thorough, _) => 100_000,
+            (Tier::Quick, "os") => 32_000,
+            (Tier::Quick, _) => 10_000,
+            (Tier::Thorough, "os") => 1_400_000,
+            (Tier::Thorough, _) => 400_000,
         }
     }
     fn rule(&self) -> &'static str {
